@@ -101,18 +101,20 @@ type vdrRun struct {
 	// entries that disappeared during a crash/restart (reset, not VDR)
 	resetGone map[string]bool
 	// content of stage-written files (relative)
-	written   map[string]string
-	writtenBy map[string]string // relative path -> job key
-	tmpFiles  map[string]bool
-	initView  map[string]core.VerifVdrFork // node fqname -> bookkeeping at construction (fork 0)
-	retained  map[string][]string          // node fqname -> retained output ids (from the program)
-	stageVol  map[string]string            // stage name -> "", "strict", "false"
-	callVol   map[string]bool              // node fqname -> call-level volatile
-	preFinal  *vdrSnapshot
-	postKill  *vdrSnapshot
-	final     *vdrSnapshot
-	launchArg map[string][]string // job key -> pipestance paths named in its args
-	lastDone  map[string]bool
+	written     map[string]string
+	writtenBy   map[string]string // relative path -> job key
+	tmpFiles    map[string]bool
+	initView    map[string]core.VerifVdrFork // node fqname -> bookkeeping at construction (fork 0)
+	retained    map[string][]string          // node fqname -> retained output ids (from the program)
+	stageVol    map[string]string            // stage name -> "", "strict", "false"
+	callVol     map[string]bool              // node fqname -> call-level volatile
+	preFinal    *vdrSnapshot
+	postKill    *vdrSnapshot
+	final       *vdrSnapshot
+	launchArg   map[string][]string // job key -> pipestance paths named in its args
+	lastDone    map[string]bool
+	preNames    map[string]vdrArgNames // fork dir -> names per argument at the pre-final snapshot
+	stageOfNode map[string]*syntax.Stage
 }
 
 type vdrSnapshot struct {
@@ -448,6 +450,12 @@ func (v *vdrRun) staticInfo() {
 	v.retained = map[string][]string{}
 	v.stageVol = map[string]string{}
 	v.callVol = map[string]bool{}
+	v.stageOfNode = map[string]*syntax.Stage{}
+	v.walkCalls(func(fq string, call *syntax.CallStm, callable syntax.Callable, parent *syntax.Pipeline, prefix string) {
+		if st, ok := callable.(*syntax.Stage); ok {
+			v.stageOfNode[fq] = st
+		}
+	})
 	for _, c := range ast.Callables.List {
 		if st, ok := c.(*syntax.Stage); ok {
 			switch {
@@ -593,6 +601,7 @@ func (v *vdrRun) loop() {
 			r.ps.VerifStorageBarrier()
 			v.observe(false)
 			v.preFinal = v.snapshot(true)
+			v.collectPreNames(v.preFinal)
 			r.log("complete", "", string(st))
 			r.ps.VDRKill()
 			r.ps.VerifStorageBarrier()
